@@ -8,5 +8,6 @@ pub mod lattice;
 pub mod rectrans;
 pub mod roweval;
 pub mod schedule;
+pub mod stdrel;
 
 pub use fam::F;
